@@ -796,6 +796,8 @@ def r10(rr, repo):
     for p in paths:
         if not any(k in ("eq('end', pos[0])", "eq(pos[0], 'end')") and v is True for k, v in p.pc):
             continue
+        if p.outcome and p.outcome[0] == 'loopcut':     # a loop (the backward search for the last record boundary) cut at the unrolling bound: not an exit of the method
+            continue
         some = p.facts.get('truthy(self.logfiles)')
         vanished = any(k.startswith('raised-in-try@') for k, v in p.pc)
         stores = [e for e in p.events if e.kind in ('store', 'augstore') and e.term == 'self.read_idx']
@@ -818,6 +820,44 @@ def r10(rr, repo):
     plain = [n_ for n_ in walk_scope(ifn) if isinstance(n_, ast.Assign) and any(U(t) == 'self.read_idx' for t in n_.targets) and 'len(' in U(n_.value)]
     rr.ob("the constructor's default position is seek(('end', ..)), not an index past the list", len(first) == 1 and U(first[0].args[0]).replace('"', "'").startswith("('end',") and not plain, imod,
           first[0] if first else (plain[0] if plain else ifn), witness=(U(first[0])[:60] if first else '') + (f'; {U(plain[0])[:60]}' if plain else ''), key='default-position-end')
+
+
+@rule('C13.R16', "'end' is a record boundary: a reader that attaches at the end of a file (the constructor of a follower, seek(('end', ..)), seek((file, 'end'))) while the writer is handing a record to the kernel "
+                 "must not be parked INSIDE that record - what follows would be read as a record (torn). On every path of seek() that goes to the physical end of the read file, the position finally "
+                 "taken is derived from the last delimiter found, unless the log has no delimiters ('bin') or the file is empty")
+def r16(rr, repo):
+    mod, fn, paths = fn_paths(repo, 'seek')
+    n = 0
+    for p in paths:
+        if p.outcome and p.outcome[0] == 'loopcut':
+            continue
+        seeks = [e for e in p.events if e.kind == 'call' and e.term.endswith('.seek')]
+        phys = [e for e in seeks if [a.strip() for a in e.args] in (['0', '2'], ['0', 'os.SEEK_END'], ['0', 'SEEK_END'])]
+        if not phys:
+            continue
+        n += 1
+        last = seeks[-1]
+        endterm = {f"{e.term}({', '.join(e.args)})" for e in phys}
+        arg = last.args[0].strip() if last.args else ''
+        at_physical_end = last in phys or arg in endterm
+        if not at_physical_end:
+            ok = "rfind(b'\\n')" in arg or 'rfind(b"\\n")' in arg or arg == '0' or arg.startswith('max(0,')       # a position computed from the last newline (or the start of the file when there is none)
+            if ok:
+                rr.ob("the position taken at 'end' is the one after the last delimiter", True, mod, last.node, witness=arg[-90:], key='end-is-a-record-boundary')
+            else:
+                rr.unresolved("how the position at 'end' is computed was not recognised", mod, last.node, witness=arg[-120:], key='end-is-a-record-boundary')
+            continue
+        modes = [(k, v) for k, v in p.pc if 'mode' in k]
+        empty = any(k.startswith('truthy(') and k[7:-1] in endterm and v is False for k, v in p.pc)
+        binmode = any(k.replace('"', "'") in ("eq('bin', self.mode)", "eq(self.mode, 'bin')") and v is True for k, v in modes)
+        if empty or binmode:
+            rr.ob("the physical end is taken only where it is a record boundary (no delimiters in 'bin' mode, an empty file)", True, mod, last.node, witness=str(modes or 'empty file'), key='end-is-a-record-boundary')
+        elif modes and not all(k.replace('"', "'") in ("eq('bin', self.mode)", "eq(self.mode, 'bin')") for k, v in modes):
+            rr.unresolved("the physical end is taken under a condition on the mode that this rule does not read", mod, last.node, witness=str(modes), key='end-is-a-record-boundary')
+        else:
+            rr.ob("the physical end is taken only where it is a record boundary (no delimiters in 'bin' mode, an empty file)", False, mod, last.node,
+                  witness=f'the physical end in a delimited mode {modes or "(whatever the mode)"}: it can lie inside a record that is being written', key='end-is-a-record-boundary')
+    rr.floor('paths of seek() that go to the physical end of a file', n, 2, mod, fn)
 
 
 @rule('C13.R11', "a reader that has not seen any file yet accepts every file a rescan finds: the 'nothing seen' value that refresh_logfiles compares file timestamps with lies below every timestamp a file name can "
